@@ -1,4 +1,5 @@
 import PGM.Model.Synth
+import PGM.Proofs.SynthAux
 import Mathlib.Algebra.Order.Floor.Ring
 import Mathlib.Algebra.Order.Ring.Rat
 import Mathlib.Algebra.BigOperators.Group.List.Basic
@@ -10,30 +11,105 @@ structure CountsOK (counts : List Rat) : Prop where
   nonneg : ∀ c ∈ counts, 0 ≤ c
   pos : 0 < sumQ counts
 
+namespace Aux
+
+theorem scaled_nn {counts : List Rat} (total : Nat) (h : CountsOK counts) :
+    ∀ x ∈ scaled counts total, 0 ≤ x :=
+  scaled_nonneg counts total h.nonneg h.pos
+
+theorem scaled_getD_nn {counts : List Rat} (total : Nat) (h : CountsOK counts) (i : Nat) :
+    0 ≤ (scaled counts total).getD i 0 := by
+  by_cases hi : i < (scaled counts total).length
+  · rw [List.getD_eq_getElem?_getD, List.getElem?_eq_getElem hi, Option.getD_some]
+    exact scaled_nn total h _ (List.getElem_mem hi)
+  · rw [List.getD_eq_getElem?_getD, List.getElem?_eq_none (not_lt.1 hi), Option.getD_none]
+
+/-- `Σ⌊x⌋ + Σ frac = total` -/
+theorem floors_fracs_total {counts : List Rat} (total : Nat) (h : CountsOK counts) :
+    ((floors (scaled counts total)).sum : Rat) + (fracs (scaled counts total)).sum = total := by
+  rw [floors_add_fracs _ (scaled_nn total h), scaled_sum' _ _ h.pos.ne']
+
+theorem floors_le_total {counts : List Rat} (total : Nat) (h : CountsOK counts) :
+    (floors (scaled counts total)).sum ≤ total := by
+  have h1 := floors_fracs_total total h
+  have h2 := fracs_sum_nonneg (scaled counts total)
+  have : ((floors (scaled counts total)).sum : Rat) ≤ total := by linarith
+  exact_mod_cast this
+
+/-- the truncated subtraction in `extra` is exact -/
+theorem floors_add_extra {counts : List Rat} (total : Nat) (h : CountsOK counts) :
+    (floors (scaled counts total)).sum + extra counts total = total := by
+  have := floors_le_total total h
+  simp only [extra, sumN_eq_sum]
+  omega
+
+/-- what an admissible `pick` does to cell `i` -/
+theorem cell {counts : List Rat} (total : Nat) (pick : List Nat)
+    (hp : pickOK counts total pick = true) (i : Nat) (hi : i < counts.length) :
+    (colCounts counts total pick).getD i 0 = ((scaled counts total).getD i 0).floor.toNat ∨
+    ((colCounts counts total pick).getD i 0 = ((scaled counts total).getD i 0).floor.toNat + 1 ∧
+      0 < (scaled counts total).getD i 0 - ((scaled counts total).getD i 0).floor) := by
+  obtain ⟨_, hpos, _⟩ := pickOK_unpack counts total pick hp
+  rw [colCounts_getD _ _ _ _ hi]
+  by_cases hc : pick.contains i
+  · right
+    have := (hpos i (List.contains_iff_mem.1 hc)).2
+    rw [fracs_getD] at this
+    rw [if_pos hc]
+    exact ⟨rfl, this⟩
+  · left; rw [if_neg hc]
+
+theorem floor_toNat_zero : ((0 : Rat).floor).toNat = 0 := by
+  rw [floor_eq]; simp
+
+end Aux
+
+open Aux
+
 /-- the targets sum to `total`; hence `Σ⌊x⌋ ≤ total` and `extra = Σ frac` -/
 theorem scaled_sum (counts : List Rat) (total : Nat) (h : CountsOK counts) :
     sumQ (scaled counts total) = total := by
-  sorry
+  rw [sumQ_eq_sum, scaled_sum' _ _ h.pos.ne']
 
 theorem extra_eq_sum_fracs (counts : List Rat) (total : Nat) (h : CountsOK counts) :
     (extra counts total : Rat) = sumQ (fracs (scaled counts total)) := by
-  sorry
+  have h1 := floors_fracs_total total h
+  have h2 : (((floors (scaled counts total)).sum + extra counts total : Nat) : Rat) = total := by
+    rw [floors_add_extra total h]
+  rw [sumQ_eq_sum]
+  push_cast at h2
+  linarith
 
 /-- **a valid choice of the extra indices always exists**: there are at least `extra` indices with
 positive fractional part (each fractional part is < 1 and they sum to `extra`) -/
 theorem extra_le_posfrac (counts : List Rat) (total : Nat) (h : CountsOK counts) :
     extra counts total ≤ ((fracs (scaled counts total)).filter (fun f => decide (0 < f))).length := by
-  sorry
+  have h1 := extra_eq_sum_fracs counts total h
+  rw [sumQ_eq_sum] at h1
+  have h2 := sum_le_posCount (fracs (scaled counts total)) (by
+    intro f hf
+    simp only [fracs, List.mem_map] at hf
+    obtain ⟨x, _, rfl⟩ := hf
+    exact (frac_lt_one x).le)
+  rw [← h1] at h2
+  exact_mod_cast h2
 
 /-- **exact row count**: for every admissible outcome `pick`, the column has exactly `total` entries -/
 theorem column_length (counts : List Rat) (total : Nat) (pick : List Nat) (h : CountsOK counts)
     (hp : pickOK counts total pick = true) : (column counts total pick).length = total := by
-  sorry
+  obtain ⟨hlen, hpos, hnd⟩ := pickOK_unpack counts total pick hp
+  unfold column
+  rw [length_flatMap_replicate]
+  unfold colCounts
+  rw [sum_bump, ← List.range_eq_range', length_floors, length_scaled,
+    length_filter_contains pick counts.length hnd (fun i hi => (hpos i hi).1), hlen]
+  exact floors_add_extra total h
 
 /-- every emitted value is a valid index of the attribute's domain -/
 theorem column_in_domain (counts : List Rat) (total : Nat) (pick : List Nat) (v : Nat)
     (hv : v ∈ column counts total pick) : v < counts.length := by
-  sorry
+  have := mem_flatMap_replicate _ 0 v hv
+  simpa using this
 
 /-- **rounding error below one, and zero cells stay empty**: value `i` is emitted `⌊xᵢ⌋` or `⌊xᵢ⌋+1`
 times, so `|count − xᵢ| < 1`, and never when `xᵢ = 0` -/
@@ -42,25 +118,65 @@ theorem colCounts_round (counts : List Rat) (total : Nat) (pick : List Nat) (h :
     let x := (scaled counts total).getD i 0
     let o := (colCounts counts total pick).getD i 0
     |(o : Rat) - x| < 1 ∧ (x = 0 → o = 0) ∧ (counts.getD i 0 = 0 → o = 0) := by
-  sorry
+  intro x o
+  have hc := cell total pick hp i hi
+  have hx : 0 ≤ x := scaled_getD_nn total h i
+  have hzero : x = 0 → o = 0 := by
+    intro hx0
+    change (scaled counts total).getD i 0 = 0 at hx0
+    rw [hx0] at hc
+    rcases hc with hc | ⟨_, hpos⟩
+    · rw [floor_toNat_zero] at hc; exact hc
+    · rw [floor_eq] at hpos; simp at hpos
+  refine ⟨abs_round_lt_one hx o hc, hzero, ?_⟩
+  intro hc0
+  apply hzero
+  change (scaled counts total).getD i 0 = 0
+  rw [scaled_getD, hc0]; simp
 
 /-- the number of occurrences of `i` in the emitted column is `colCounts[i]` -/
 theorem column_count (counts : List Rat) (total : Nat) (pick : List Nat) (i : Nat) (hi : i < counts.length) :
     (column counts total pick).count i = (colCounts counts total pick).getD i 0 := by
-  sorry
+  have _ := hi
+  unfold column
+  rw [count_flatMap_replicate]; simp
 
 /-- the histogram of every admissible outcome passes the checker … -/
 theorem colOK_of_pick (counts : List Rat) (total : Nat) (pick : List Nat) (h : CountsOK counts)
     (hp : pickOK counts total pick = true) : colOK counts total (colCounts counts total pick) = true := by
-  sorry
+  rw [colOK_unpack]
+  refine ⟨length_colCounts _ _ _, ?_, ?_⟩
+  · have h1 := column_length counts total pick h hp
+    unfold column at h1
+    rw [length_flatMap_replicate] at h1
+    rw [sumN_eq_sum, h1]
+  · intro i hi
+    have hr := colCounts_round counts total pick h hp i hi
+    refine ⟨?_, ?_⟩
+    · exact cell total pick hp i hi
+    · by_cases hx : (scaled counts total).getD i 0 = 0
+      · exact Or.inr (hr.2.1 hx)
+      · exact Or.inl hx
+
 
 /-- … and **the checker is sound**: an observed histogram it accepts has exactly `total` entries,
-rounding error below one in every cell, and nothing in zero-probability cells -/
+rounding error below one in every cell, and nothing in zero-probability cells (`colOK` allows
+`⌊x⌋ + 1` only when `x` has a positive fractional part, so an integral target is never rounded up). -/
 theorem colOK_sound (counts : List Rat) (total : Nat) (out : List Nat) (h : CountsOK counts)
     (hok : colOK counts total out = true) :
     sumN out = total ∧ ∀ i, i < counts.length →
       |((out.getD i 0 : Nat) : Rat) - (scaled counts total).getD i 0| < 1 ∧
       (counts.getD i 0 = 0 → out.getD i 0 = 0) := by
-  sorry
+  rw [colOK_unpack] at hok
+  obtain ⟨_, hsum, hcell⟩ := hok
+  refine ⟨hsum, fun i hi => ?_⟩
+  obtain ⟨hfl, hz⟩ := hcell i hi
+  have hx : 0 ≤ (scaled counts total).getD i 0 := scaled_getD_nn total h i
+  refine ⟨abs_round_lt_one hx _ hfl, ?_⟩
+  intro hc0
+  have hx0 : (scaled counts total).getD i 0 = 0 := by rw [scaled_getD, hc0]; simp
+  rcases hz with hz | hz
+  · exact absurd hx0 hz
+  · exact hz
 
 end PGM.Synth
